@@ -620,7 +620,27 @@ func cCmp(op token.Token, x, y VM) CondM {
 			op   token.Token
 			l, r ssa.Value
 		}
-		for _, f := range []form{{b.Op, b.X, b.Y}, {swapOp(b.Op), b.Y, b.X}} {
+		forms := []form{{b.Op, b.X, b.Y}, {swapOp(b.Op), b.Y, b.X}}
+		// x < e+1 is x <= e, x >= e+1 is x > e (integers); e+1 <= y is e < y, e+1 > y is e >= y
+		for _, f := range forms[:2] {
+			if e, ok := plusOne(f.r); ok {
+				switch f.op {
+				case token.LSS:
+					forms = append(forms, form{token.LEQ, f.l, e})
+				case token.GEQ:
+					forms = append(forms, form{token.GTR, f.l, e})
+				}
+			}
+			if e, ok := plusOne(f.l); ok {
+				switch f.op {
+				case token.LEQ:
+					forms = append(forms, form{token.LSS, e, f.r})
+				case token.GTR:
+					forms = append(forms, form{token.GEQ, e, f.r})
+				}
+			}
+		}
+		for _, f := range forms {
 			if !x(f.l) || !y(f.r) {
 				continue
 			}
@@ -631,8 +651,79 @@ func cCmp(op token.Token, x, y VM) CondM {
 				return true, !pos
 			}
 		}
+		// comparisons with an integer constant in another spelling: len(x) != 0 for len(x) > 0,
+		// i <= 0 for i < 1, …
+		for _, f := range forms[:2] {
+			cst, isC := strip(f.r).(*ssa.Const)
+			if !isC || cst.Value == nil || !isIntT(cst.Type()) || !x(f.l) {
+				continue
+			}
+			c2 := cst.Int64()
+			var lb *int64
+			if vCall("builtin.len", vAny)(f.l) || vCall("builtin.cap", vAny)(f.l) {
+				z := int64(0)
+				lb = &z
+			} else if isSearchResult(f.l) {
+				z := int64(-1)
+				lb = &z
+			}
+			nonneg := lb
+			k2, n2, p2, ok2 := normCmp(f.op, c2, nonneg)
+			if !ok2 {
+				continue
+			}
+			for _, k := range []int64{c2 - 1, c2, c2 + 1} {
+				if !y(ssa.NewConst(constant.MakeInt64(k), cst.Type())) {
+					continue
+				}
+				k1, n1, p1, ok1 := normCmp(op, k, nonneg)
+				if ok1 && k1 == k2 && n1 == n2 {
+					return true, pos == (p1 == p2)
+				}
+			}
+		}
 		return false, false
 	}
+}
+
+// plusOne matches e + 1 / 1 + e and returns e.
+func plusOne(v ssa.Value) (ssa.Value, bool) {
+	b, ok := strip(v).(*ssa.BinOp)
+	if !ok || b.Op != token.ADD {
+		return nil, false
+	}
+	if vConstInt(1)(b.Y) {
+		return b.X, true
+	}
+	if vConstInt(1)(b.X) {
+		return b.Y, true
+	}
+	return nil, false
+}
+
+// normCmp brings "l op c" (integers) to one of the forms l < n / l == n, with a polarity.
+func normCmp(op token.Token, c int64, lb *int64) (kind string, n int64, pos bool, ok bool) {
+	switch op {
+	case token.LSS:
+		return "lt", c, true, true
+	case token.GEQ:
+		return "lt", c, false, true
+	case token.LEQ:
+		return "lt", c + 1, true, true
+	case token.GTR:
+		return "lt", c + 1, false, true
+	case token.EQL:
+		if lb != nil && c == *lb {
+			return "lt", c + 1, true, true
+		}
+		return "eq", c, true, true
+	case token.NEQ:
+		if lb != nil && c == *lb {
+			return "lt", c + 1, false, true
+		}
+		return "eq", c, false, true
+	}
+	return "", 0, false, false
 }
 
 // cBool recognises a boolean value matched by m (possibly negated).
